@@ -315,6 +315,7 @@ type Scenario struct {
 	Body  func(r *explore.Run)
 	After func(r *explore.Run)
 	Wrap  func(fn func())
+	OnCut func()
 }
 
 // RunScenarios explores every scenario (or replays the artifact given with
@@ -326,7 +327,7 @@ func (r *R) RunScenarios(t *testing.T, scs []Scenario) {
 			if sc.Name != a.Violation.Scenario {
 				continue
 			}
-			e := &explore.Explorer{Scenario: sc.Name, Bound: 1 << 30, Body: sc.Body, Wrap: sc.Wrap}
+			e := &explore.Explorer{Scenario: sc.Name, Bound: 1 << 30, Body: sc.Body, Wrap: sc.Wrap, OnCut: sc.OnCut}
 			run, fail := e.Replay(a.Violation.Choices)
 			if st := e.LastStack(); st != "" {
 				fmt.Println(st)
@@ -353,7 +354,7 @@ func (r *R) RunScenarios(t *testing.T, scs []Scenario) {
 			r.Note("budget exhausted before scenario %s", sc.Name)
 			break
 		}
-		e := &explore.Explorer{Scenario: sc.Name, Bound: sc.Bound, Body: sc.Body, After: sc.After, Prune: sc.Prune, Wrap: sc.Wrap, Deadline: r.deadline}
+		e := &explore.Explorer{Scenario: sc.Name, Bound: sc.Bound, Body: sc.Body, After: sc.After, Prune: sc.Prune, Wrap: sc.Wrap, OnCut: sc.OnCut, Deadline: r.deadline}
 		if byScenario {
 			e.OnViolation = r.Violation
 			e.Explore()
@@ -372,7 +373,7 @@ func (r *R) RunScenarios(t *testing.T, scs []Scenario) {
 // identical observations (trace and verdict). reset, if not nil, is called
 // before each replay to clear memoisation.
 func (r *R) SelfCheck(t *testing.T, sc Scenario, reset func()) {
-	e := &explore.Explorer{Scenario: sc.Name, Bound: 0, Body: sc.Body, Wrap: sc.Wrap}
+	e := &explore.Explorer{Scenario: sc.Name, Bound: 0, Body: sc.Body, Wrap: sc.Wrap, OnCut: sc.OnCut}
 	sig := func(f *explore.Failure) string {
 		if f == nil {
 			return ""
